@@ -78,7 +78,7 @@ def register(spec):
                'others-untouched': 'all(implies(old(allocated(c)), c.entity == old(c.entity) and '
                                    'c.world == old(c.world)) for c in Ctrl)'})
     spec.define('allocated', lambda X, o: ZV(spec.alloc_array(X, deref(o).t.sort())[deref(o).t]))
-    spec.ghost_decls['alloc_Ctrl'] = lambda X: None
+    spec.ghost_decls['alloc_Ctrl'] = spec.alloc_havoc('Ctrl')
 
     # ---- references (descriptors)
     CR = TSort('CompRef')
